@@ -27,13 +27,14 @@ Section VrOrigin.
 
   Definition rorigin (s0 : S) (e : err) : Prop :=
     e = EFuel \/
-    (e = ECode (g_code cfg) /\ (g_size cfg < lenN (fst (cont s0)) \/ snd (cont s0) = EEof)) \/
+    (e = ECode (g_code cfg) /\ ~ valid_reader H cfg cont s0 /\
+     (g_size cfg < lenN (fst (cont s0)) \/ snd (cont s0) = EEof)) \/
     (e = snd (cont s0) /\ e <> EEof /\ lenN (fst (cont s0)) <= g_size cfg).
 
   Lemma rorigin_expected s0 e :
     rorigin s0 e -> e <> EFuel -> e = expected_err cfg (fst (cont s0)) (snd (cont s0)).
   Proof.
-    unfold expected_err. intros [->|[(-> & [Hl|Ht])|(-> & Hne & Hl)]] Hnf; [congruence| | |].
+    unfold expected_err. intros [->|[(-> & _ & [Hl|Ht])|(-> & Hne & Hl)]] Hnf; [congruence| | |].
     - replace (g_size cfg <? lenN (fst (cont s0))) with true by (symmetry; apply N.ltb_lt; exact Hl). reflexivity.
     - rewrite Ht. destruct (g_size cfg <? lenN (fst (cont s0))); reflexivity.
     - replace (g_size cfg <? lenN (fst (cont s0))) with false by (symmetry; apply N.ltb_ge; exact Hl).
@@ -104,13 +105,14 @@ Section VrOrigin.
     { destruct re; rewrite Hfst, Hs; cbn [fst]; try (exists []; now rewrite app_nil_r).
       exists (fst (cont u')). now rewrite app_assoc. }
     destruct Hpre as (rest0 & Hpre).
-    assert (Hcode : forall (b : bytes) (stx : vst S),
-               (([], ECode (g_code cfg)), stx) = ((d, e), st') ->
-               (g_size cfg < lenN (fst (cont s0)) \/ snd (cont s0) = EEof) -> rorigin s0 e).
-    { intros _ stx Hx Hwhy. inv Hx. right. left. auto. }
+    assert (Hhash : forall x, fst (cont s0) = x -> bytes_eqb (g_hash cfg) (H x) = false ->
+               ~ valid_reader H cfg cont s0).
+    { intros x Hx Hb (_ & _ & Hh). rewrite Hx in Hh. rewrite <- Hh in Hb.
+      rewrite (proj2 (bytes_eqb_eq _ _) eq_refl) in Hb. discriminate. }
     destruct (v_rem st <? lenN d0) eqn:Hbig.
-    { apply N.ltb_lt in Hbig. cbn in Hr. inv Hr. right. left. split; [reflexivity|]. left.
-      rewrite Hpre, !lenN_app. lia. }
+    { apply N.ltb_lt in Hbig. cbn in Hr. inv Hr. right. left. split; [reflexivity|]. split.
+      - eapply too_long_invalid_r; [exact Hpre|]. rewrite lenN_app. lia.
+      - left. rewrite Hpre, !lenN_app. lia. }
     apply N.ltb_ge in Hbig.
     destruct re; try congruence; cbn [v_set_u v_rem v_u v_acc v_err v_cbs] in Hr.
     - (* more may follow *)
@@ -127,17 +129,24 @@ Section VrOrigin.
           (if 0 <? lenN fin then let '(e', st'0) := v_fail cfg (mkVst u'' 0 (v_acc st ++ d0) (v_err st) (v_cbs st)) in (([], e'), st'0)
            else let '(e', st'0) := vr_compare H cfg (mkVst u'' 0 (v_acc st ++ d0) (v_err st) (v_cbs st)) in
                 match e' with ENone => ((d0, EEof), v_notify st'0 true) | _ => (([], e'), st'0) end)
-          = ((d, e), st') -> (fin = [] -> snd (cont u') = EEof) -> rorigin s0 e).
+          = ((d, e), st') -> (fin = [] -> cont u' = ([], EEof)) -> rorigin s0 e).
         { intros Hx Hfin. destruct (0 <? lenN fin) eqn:Hf.
-          - apply N.ltb_lt in Hf. cbn in Hx. inv Hx. right. left. split; [reflexivity|]. left.
-            rewrite Hcont_fst, !lenN_app. lia.
+          - apply N.ltb_lt in Hf. cbn in Hx. inv Hx. right. left. split; [reflexivity|]. split.
+            + apply (too_long_invalid_r H cfg S cont s0 (v_acc st ++ d0 ++ fin) rest).
+              * rewrite Hcont_fst, <- !app_assoc. reflexivity.
+              * rewrite !lenN_app. lia.
+            + left. rewrite Hcont_fst, !lenN_app. lia.
           - apply N.ltb_ge in Hf. assert (fin = []) by (apply lenN_zero; lia). subst fin.
+            pose proof (Hfin eq_refl) as Hc0.
             unfold vr_compare in Hx. cbn [v_acc] in Hx.
-            destruct (bytes_eqb (g_hash cfg) (H (v_acc st ++ d0))); [inv Hx; congruence|].
-            cbn in Hx. inv Hx. right. left. split; [reflexivity|]. right. rewrite Hcont_snd. auto. }
+            destruct (bytes_eqb (g_hash cfg) (H (v_acc st ++ d0))) eqn:Hb; [inv Hx; congruence|].
+            cbn in Hx. inv Hx. right. left. split; [reflexivity|]. split.
+            + apply (Hhash (v_acc st ++ d0)); [|exact Hb]. rewrite Hfst, Hs. cbn [fst]. rewrite Hc0. cbn [fst].
+              now rewrite app_nil_r.
+            + right. rewrite Hcont_snd, Hc0. reflexivity. }
         destruct fe; try contradiction.
         * apply Hfinish; [exact Hr|]. intros ->. congruence.
-        * apply Hfinish; [exact Hr|]. intros _. destruct Hm as (_ & Hc0). rewrite Hc0. reflexivity.
+        * apply Hfinish; [exact Hr|]. intros _. destruct Hm as (_ & Hc0). exact Hc0.
         * inv Hr. destruct Hm as (-> & Hc0). right. right. rewrite Hcont_snd, Hc0. cbn [snd].
           rsplit; [reflexivity|congruence|]. rewrite Hcont_fst. cbn [app] in Hrest.
           rewrite Hc0 in Hrest. cbn [fst] in Hrest. subst rest. rewrite !app_nil_r, lenN_app. lia.
@@ -145,11 +154,14 @@ Section VrOrigin.
       + inv Hr. congruence.
     - (* EOF together with the data *)
       assert (Ht : snd (cont s0) = EEof) by (rewrite Hsnd, Hs; reflexivity).
-      destruct (negb (v_rem st - lenN d0 =? 0)).
-      + cbn in Hr. inv Hr. right. left. auto.
+      assert (Hf0 : fst (cont s0) = v_acc st ++ d0) by (rewrite Hfst, Hs; reflexivity).
+      destruct (negb (v_rem st - lenN d0 =? 0)) eqn:Hz.
+      + cbn in Hr. inv Hr. right. left. rsplit; auto.
+        apply negb_true_iff, N.eqb_neq in Hz.
+        intros (_ & Hlen & _). rewrite Hf0, lenN_app in Hlen. lia.
       + unfold vr_compare in Hr. cbn [v_acc] in Hr.
-        destruct (bytes_eqb (g_hash cfg) (H (v_acc st ++ d0))); [inv Hr; congruence|].
-        cbn in Hr. inv Hr. right. left. auto.
+        destruct (bytes_eqb (g_hash cfg) (H (v_acc st ++ d0))) eqn:Hb; [inv Hr; congruence|].
+        cbn in Hr. inv Hr. right. left. rsplit; auto. exact (Hhash _ Hf0 Hb).
     - inv Hr. right. right. rewrite Hsnd, Hs. cbn [snd]. rsplit; [reflexivity|congruence|].
       rewrite Hfst, Hs. cbn [fst]. rewrite lenN_app. lia.
     - inv Hr. left. reflexivity.
@@ -196,6 +208,18 @@ Section VrOrigin.
     - rsplit; auto; [congruence|]. intros _ Hnf. apply rorigin_expected; assumption.
     - rsplit; auto; [congruence|]. intros _ Hnf. apply rorigin_expected; assumption.
     - rsplit; auto; congruence.
+  Qed.
+
+  (** an invariant state of a valid stream has not failed (unless out of fuel) *)
+  Lemma RInv3_valid s0 st out :
+    RInv3 s0 st out -> valid_reader H cfg cont s0 ->
+    v_err st = ENone \/ v_err st = EEof \/ v_err st = EFuel.
+  Proof.
+    intros [_ Ho] Hv. destruct (v_err st) eqn:He; auto; exfalso.
+    - destruct Ho as [Ho|[(_ & Hnv & _)|(Ht & Hne & _)]]; [discriminate|exact (Hnv Hv)|].
+      destruct Hv as (Hv & _). congruence.
+    - destruct Ho as [Ho|[(_ & Hnv & _)|(Ht & Hne & _)]]; [discriminate|exact (Hnv Hv)|].
+      destruct Hv as (Hv & _). congruence.
   Qed.
 
   (** ** the Go io helpers report the validator's sticky error *)
